@@ -36,6 +36,9 @@ def case_list(name, label, cfg, tier):
         cases.append((p, sse.kw_limit(name, cfg), 'shared'))
     for p in domains.profiles(6, 5):
         cases.append((p, 6, 'shared'))
+    if 'param_identifier_size' not in cfg:
+        for p in domains.profiles(6):
+            cases.append((p, 6, 'mixed-ids'))
     lens = [v for v in domains.around(sse.special_lengths(name, cfg, tier)) if v <= MAXLEN[tier]]
     if label not in ('base', 'default', 'default-s256') and tier == 'quick':
         lens = [v for v in lens if v <= 300]
@@ -43,6 +46,15 @@ def case_list(name, label, cfg, tier):
         lens = [v for v in lens if v <= (130 if tier == 'quick' else 520)]
     for p in domains.boundary_profiles(lens):
         cases.append((p, 6, 'disjoint'))
+    if label in ('base', 'default', 'default-s256'):
+        # many keywords rather than long lists: counts around the one-byte boundary, a few hundred postings in dozens of lists
+        wide = [[1] * 255, [1] * 256, [1] * 257, [2] * 130, [3] * 100, list(range(1, 31))]
+        if tier != 'quick':
+            wide += [[1] * 1000, [5] * 300, list(range(1, 64))]
+        if name in ('CGKO06.SSE1', 'CGKO06.SSE2'):     # one bit-level PRP call per (keyword, posting) and, for SSE-2, per padding slot
+            wide = [[1] * 40, [2] * 20, list(range(1, 9))] if tier == 'quick' else [[1] * 257, [2] * 130, list(range(1, 31))]
+        for p in wide:
+            cases.append((p, 6, 'disjoint'))
     out, seen = [], set()
     for p, kw, rel in cases:
         key = (tuple(p), kw, rel)
